@@ -135,7 +135,19 @@ func genExhaustive(tier string, emit func(string)) {
 						cnt := 0
 						allInterleavings(n, steps, func(s []int) {
 							cnt++
-							if proto == "code" && cnt%7 != 1 && (tier == "quick" || n == 3) {
+							// the mutex turns most of these interleavings into runs of blocked steps: sample them
+							stride := 1
+							switch {
+							case proto == "code" && tier == "quick":
+								stride = 61
+							case proto == "code" && n == 3:
+								stride = 211
+							case proto == "code":
+								stride = 3
+							case tier == "quick" && n == 3:
+								stride = 7
+							}
+							if cnt%stride != 1%stride {
 								return
 							}
 							// blocked steps consume schedule slots: append a drain so that every request finishes
@@ -262,7 +274,7 @@ func generate(r *common.Rand, tier string, emit func(string)) {
 		genRandom(r, 6000, emit)
 		genFree(r, 120, emit)
 	} else {
-		genRandom(r, 700, emit)
-		genFree(r, 12, emit)
+		genRandom(r, 2500, emit)
+		genFree(r, 25, emit)
 	}
 }
